@@ -148,6 +148,17 @@ func LiveMPD(a *asset, mpdName string, cfg *ResponseConfig, drmCfg *drm.DrmConfi
 					return nil, fmt.Errorf("drm parameter %q, but pre-encrypted asset %s cannot be encrypted again",
 						cfg.DRM, a.AssetPath)
 				}
+				// Protection is decided per representation (matchInit, encryptFrags): signal it only for
+				// an AdaptationSet with a representation that is prepared for encryption.
+				prepared := false
+				for _, r := range as.Representations {
+					if rd, ok := a.Reps[r.Id]; ok && rd.encData != nil {
+						prepared = true
+					}
+				}
+				if !prepared {
+					break
+				}
 				switch cfg.DRM {
 				case "eccp-cenc", "eccp-cbcs":
 					if a.refRep.PreEncrypted {
